@@ -72,7 +72,7 @@ def configs(tier, seed):
     return out
 
 
-def run_config(cfg, hash_order=None, want_trace=False):
+def run_config(cfg, hash_order=None, want_trace=False, shared=None):
     """Runs one seeded search; returns (digest, trace, all_nodes order)."""
     from geneticengine.algorithms.gp.gp import GeneticProgramming
     from geneticengine.algorithms.hill_climbing import HC
@@ -90,9 +90,16 @@ def run_config(cfg, hash_order=None, want_trace=False):
     patch_stack_horizon(5000)
     spec = grammar_specs()[cfg["g"]]
     G._counter = itertools.count(1000 + cfg["g"])  # same module name in every environment
-    b = G.build(spec, hash_order=hash_order)
+    if shared is not None and "bundle" in shared:
+        b = shared["bundle"]
+    else:
+        b = G.build(spec, hash_order=hash_order)
+        if shared is not None:
+            shared["bundle"] = b
     try:
-        g = b.extract()
+        g = shared["grammar"] if (shared is not None and "grammar" in shared) else b.extract()
+        if shared is not None:
+            shared["grammar"] = g
         r = NativeRandomSource(cfg["seed"])
         depth = 8 if spec["name"].startswith("CHAIN") else 4
         rep = make_rep(cfg["rep"], g, r, depth, gene_length=24, decider=cfg.get("decider", "maxdepth"))
@@ -118,8 +125,14 @@ def run_config(cfg, hash_order=None, want_trace=False):
                     FullInitializer, GrowInitializer, PositionIndependentGrowInitializer, RampedHalfAndHalfInitializer,
                 )
 
-                init = {"grow": lambda: GrowInitializer(), "full": lambda: FullInitializer(4),
-                        "pigrow": lambda: PositionIndependentGrowInitializer(4), "ramped": lambda: RampedHalfAndHalfInitializer(4)}[cfg["init"]]()
+                init = None
+                if shared is not None:
+                    init = shared.get("init")  # one initialiser object serving two searches in a row
+                if init is None:
+                    init = {"grow": lambda: GrowInitializer(), "full": lambda: FullInitializer(4),
+                            "pigrow": lambda: PositionIndependentGrowInitializer(4), "ramped": lambda: RampedHalfAndHalfInitializer(4)}[cfg["init"]]()
+                    if shared is not None:
+                        shared["init"] = init
                 alg = GeneticProgramming(problem, budget, rep, random=r, population_size=6, population_initializer=init, **kw)
             elif algo == "gp":
                 alg = GeneticProgramming(problem, budget, rep, random=r, population_size=6, **kw)
@@ -164,7 +177,8 @@ def run_config(cfg, hash_order=None, want_trace=False):
         h = hashlib.sha1("\n".join(trace).encode()).hexdigest()
         return h, (trace if want_trace else None), order
     finally:
-        b.cleanup()
+        if shared is None:
+            b.cleanup()
 
 
 def worker_main(argv):
@@ -219,6 +233,19 @@ def run_unit(unit):
         a = run_config(cfg, want_trace=True)
         b = run_config(cfg, want_trace=True)
         r.executions += 2
+        if cfg.get("init"):
+            # the same grammar and the same initialiser object for two freshly seeded searches
+            sh: dict = {}
+            a2 = run_config(cfg, want_trace=True, shared=sh)
+            b2 = run_config(cfg, want_trace=True, shared=sh)
+            sh["bundle"].cleanup()
+            r.executions += 2
+            if a2[0] != b2[0]:
+                k = next((i for i, (x, y) in enumerate(zip(a2[1], b2[1])) if x != y), min(len(a2[1]), len(b2[1])))
+                r.add_violation(Violation(PROP, f"{cfg['algo']}.search", "second-run-differs", {"rep": cfg["rep"], "algo": cfg["algo"], "shared": "initializer"},
+                                          {"unit": unit, "first_difference": k},
+                                          f"{cfg}: a second search reusing the same initialiser object (fresh seeded source) diverges at evaluation {k}: "
+                                          f"{a2[1][k:k+1]} vs {b2[1][k:k+1]}"))
         r.states += len({a[0], b[0]})
         r.count("in_process_repeats")
         if a[0] != b[0]:
